@@ -283,4 +283,109 @@ theorem session_in_step_dec {P : Bytes → Bool} {cfg : Cfg} {dv : LineDev} (hf 
       exact processOutput_indep cfg dv i L t' stripPrompt hLws hLnl ht' hf.prompt_ne hf.prompt_nl
     · rw [hwr, hw1]; simp [List.append_assoc]
 
+/-- `get_prompt` over the decorating device (mirror of `getPrompt_exact`) -/
+theorem getPrompt_exact_dec {P : Bytes → Bool} {cfg : Cfg} {dv : LineDev} (hf : Fits P cfg dv)
+    (D : Nat → Bytes → Bytes) (hD : Decorates D)
+    (hfirst : ∀ x L, (splitNL x).find? P = some L →
+      ∃ m, cfg.prompt.first x = some m ∧ strip m = strip L)
+    (hout : dv.out [] = [])
+    (w : Wire) (res : Bytes) (hd : Dec w res) (hres : ∀ x ∈ res, isHws x = true) (n : Nat) :
+    ∃ w' res', getPrompt cfg (decOnWrite dv D) (w, ([], n)) = some (strip dv.prompt, (w', ([], n + 1))) ∧
+      w'.writes = w.writes ++ [cfg.ret] ∧ Dec w' res' ∧ (∀ x ∈ res', isHws x = true) := by
+  have hrb : dv.rbody [] = [] := by simp [LineDev.rbody, hout]
+  have hw1 : Wire.write (decOnWrite dv D) (w, ([], n)) cfg.ret =
+      ({ w with avail := w.avail ++ D n (dv.respond []), writes := w.writes ++ [cfg.ret] }, ([], n + 1)) := by
+    simp [Wire.write, decOnWrite, dv.onWrite_ret [] hf.ret]
+  have hav : res ++ dv.respond [] = res ++ NL :: dv.prompt ++ dv.trail := by
+    simp [LineDev.respond, hrb]
+  have hpr : Plain (dv.respond []) := by
+    unfold LineDev.respond
+    rw [hrb]
+    exact (nl_cons_plain hf.prompt_plain).append (hws_plain hf.trail_hws)
+  have hd1 : Dec { w with avail := w.avail ++ D n (dv.respond []), writes := w.writes ++ [cfg.ret] }
+      (res ++ NL :: dv.prompt ++ dv.trail) := by
+    rw [← hav]
+    exact dec_append w res hd _ _ _ (hD n (dv.respond []) hpr)
+  have hq : Quiet P res := by
+    intro l hl s hs
+    rw [splitNL_noNL _ (hws_noNL hres)] at hl
+    have : l = res := by simpa using hl
+    subst this
+    exact hf.blank s (squishBuf_infix_nil hs (hws_squishBuf hres))
+  obtain ⟨hflat, hrest⟩ := readUntil_dec cfg.prompt.search _ _ hd1
+  obtain ⟨k, t', htt, hrl⟩ :=
+    readLoop_search cfg.prompt res dv.prompt dv.trail hf.search_lines hq hf.noEarly hf.promptOK
+      hf.prompt_nl (hws_noNL hf.trail_hws) _ [] (by simpa using hflat) (by simp; omega)
+  obtain ⟨w', h1, h2, h3⟩ := hrest _ k hrl
+  obtain ⟨t'', ht''⟩ := htt
+  have ht'hws := (suffix_hws ht'' hf.trail_hws).1
+  have hfind : (splitNL (res ++ NL :: dv.prompt ++ t')).find? P = some (dv.prompt ++ t') := by
+    have hznl : NL ∉ dv.prompt ++ t' := by
+      intro hm
+      rcases List.mem_append.mp hm with h1 | h1
+      · exact hf.prompt_nl h1
+      · exact hws_noNL ht'hws h1
+    have e : res ++ NL :: dv.prompt ++ t' = res ++ NL :: (dv.prompt ++ t') := by simp
+    rw [e, splitNL_append_NL, splitNL_noNL _ (hws_noNL hres), splitNL_noNL _ hznl]
+    have h1 : P res = false := hf.blank _ (hws_squishBuf hres)
+    have h2 : P (dv.prompt ++ t') = true := hf.promptOK t' ⟨t'', ht''⟩
+    simp [List.find?, h1, h2]
+  obtain ⟨m, hm1, hm2⟩ := hfirst _ _ hfind
+  -- the text not consumed is t''
+  have hk := readLoop_result_eq cfg.prompt.search _ [] _ k hrl
+  simp only [List.nil_append] at hk
+  have hsplit : ((cleanPieces w.held (piecesOf (w.avail ++ D n (dv.respond [])) w.cuts)).1.take k).flatten ++
+      ((cleanPieces w.held (piecesOf (w.avail ++ D n (dv.respond [])) w.cuts)).1.drop k).flatten =
+      res ++ NL :: dv.prompt ++ dv.trail := by
+    rw [← List.flatten_append, List.take_append_drop]; exact hflat
+  rw [← hk, ← ht''] at hsplit
+  have hrest' : ((cleanPieces w.held (piecesOf (w.avail ++ D n (dv.respond [])) w.cuts)).1.drop k).flatten = t'' := by
+    have e : (res ++ NL :: dv.prompt ++ t') ++
+        ((cleanPieces w.held (piecesOf (w.avail ++ D n (dv.respond [])) w.cuts)).1.drop k).flatten =
+        (res ++ NL :: dv.prompt ++ t') ++ t'' := by rw [hsplit]; simp [List.append_assoc]
+    exact List.append_cancel_left e
+  refine ⟨w', t'', ?_, by rw [h2], by rw [← hrest']; exact h3, (suffix_hws ht'' hf.trail_hws).2⟩
+  unfold getPrompt
+  simp only [hw1, h1, hm1]
+  rw [hm2, strip_append_hws _ _ ht'hws]
+
+/-- sessions mixing `get_prompt` and commands over the decorating device (mirror of `mixed_session_in_step`) -/
+theorem mixed_session_in_step_dec {P : Bytes → Bool} {cfg : Cfg} {dv : LineDev} (hf : Fits P cfg dv)
+    (D : Nat → Bytes → Bytes) (hD : Decorates D)
+    (hfirst : ∀ x L, (splitNL x).find? P = some L →
+      ∃ m, cfg.prompt.first x = some m ∧ strip m = strip L)
+    (hout : dv.out [] = []) (stripPrompt : Bool) :
+    ∀ (ops : List COp), (∀ i, COp.cmd i ∈ ops → GoodCmd P dv i) →
+    ∀ (w : Wire) (res : Bytes) (n : Nat), Dec w res → (∀ x ∈ res, isHws x = true) →
+      ∃ rs w' res' n', runOps cfg (decOnWrite dv D) stripPrompt ops (w, ([], n)) = some (rs, (w', ([], n'))) ∧
+        rs = ops.map (expectedOp cfg dv stripPrompt) ∧
+        w'.writes = w.writes ++ (ops.map (opWrites cfg.ret)).flatten ∧
+        Dec w' res' ∧ (∀ x ∈ res', isHws x = true) := by
+  intro ops
+  induction ops with
+  | nil => intro _ w res n hd hr; exact ⟨[], w, res, n, rfl, rfl, by simp, hd, hr⟩
+  | cons o ops ih =>
+    intro hg w res n hd hr
+    have hg' : ∀ i, COp.cmd i ∈ ops → GoodCmd P dv i := fun i hi => hg i (by simp [hi])
+    cases o with
+    | cmd i =>
+      obtain ⟨L, t', t'', w1, hLws, hLnl, htt, hsend, hd1, hw1⟩ :=
+        sendInput_frames_dec hf D hD i (hg i (by simp)) stripPrompt w res hd hr n
+      obtain ⟨ht', ht''⟩ := suffix_hws htt hf.trail_hws
+      obtain ⟨rs, w', res', n', hrun, hres, hwr, hd', hr'⟩ := ih hg' w1 t'' (n + 2) hd1 ht''
+      refine ⟨processOutput cfg (L ++ dv.rbody i ++ NL :: dv.prompt ++ t') stripPrompt :: rs, w', res', n', ?_, ?_, ?_, hd', hr'⟩
+      · unfold runOps; rw [hsend]; simp only; rw [hrun]; rfl
+      · rw [hres]
+        simp only [List.map_cons, expectedOp, expected]
+        congr 1
+        exact processOutput_indep cfg dv i L t' stripPrompt hLws hLnl ht' hf.prompt_ne hf.prompt_nl
+      · rw [hwr, hw1]; simp [opWrites, List.append_assoc]
+    | prompt =>
+      obtain ⟨w1, res1, hgp, hw1, hd1, hr1⟩ := getPrompt_exact_dec hf D hD hfirst hout w res hd hr n
+      obtain ⟨rs, w', res', n', hrun, hres, hwr, hd', hr'⟩ := ih hg' w1 res1 (n + 1) hd1 hr1
+      refine ⟨strip dv.prompt :: rs, w', res', n', ?_, ?_, ?_, hd', hr'⟩
+      · unfold runOps; rw [hgp]; simp only; rw [hrun]; rfl
+      · rw [hres]; simp [expectedOp]
+      · rw [hwr, hw1]; simp [opWrites, List.append_assoc]
+
 end Scrapli.Chan
